@@ -30,12 +30,19 @@ theorem select_hsel (a : Agent) (id : Nat)
     unfold NomProof at hn ⊢
     cases hc : a.controlling <;> simp only [hc, if_true, Bool.false_eq_true, if_false] at hn ⊢ <;> exact hn
 
-/-- the selection decision of `HandleSuccessResponse` (both selectors; verbatim) -/
+/-- the selection decision of `HandleSuccessResponse` (both selectors).  Controlling: a response to a USE-CANDIDATE
+check selects when it carried a nomination value that is not superseded by a greater answered value, or when nothing
+is selected.  Controlled: a deferred nomination mark — with a value: unless superseded; without: not once a value has
+been accepted and another pair is selected, else by priority. -/
 def hsSel (a : Agent) (p : Pair) (pd : Pending) : Agent × List Out :=
           if a.controlling then
             if pd.useCand then
-              if pd.nom.isSome then a.select p.id
-              else if a.selected.isNone then a.select p.id else (a, [])
+              match pd.nom with
+              | some v =>
+                let superseded := match a.answeredNomination with | none => false | some w => v ≤ w
+                if superseded then (a, [])
+                else a.select p.id
+              | none => if a.selected.isNone then a.select p.id else (a, [])
             else (a, [])
           else
             if p.nomOnSuccess then
@@ -48,13 +55,123 @@ def hsSel (a : Agent) (p : Pair) (pd : Pending) : Agent × List Out :=
                 match a.selected.bind a.pairById with
                 | none => a.select p.id
                 | some sp =>
-                  if sp.id != p.id && (!needsPrioCheck a.cfg || a.pairPrio sp ≤ a.pairPrio p) then a.select p.id
+                  if sp.id != p.id && a.lastNomination.isSome then (a, [])
+                  else if sp.id != p.id && (!needsPrioCheck a.cfg || a.pairPrio sp ≤ a.pairPrio p) then a.select p.id
                   else (a, [])
             else (a, [])
 
 /-- the ghost/validity update of `HandleSuccessResponse` -/
 def hsMark (pd : Pending) (p : Pair) : Pair :=
   { p with state := .succeeded, gResp := true, gRespUC := p.gRespUC || pd.useCand }
+
+/-- the value the controlling selector records as answered (`a` = state in which the decision is taken) -/
+def hsAnswered (a : Agent) (pd : Pending) : Option Nat :=
+  if a.controlling then
+    if pd.useCand then
+      match pd.nom with
+      | some v => if (match a.answeredNomination with | none => false | some w => decide (v ≤ w)) then none else some v
+      | none => none
+    else none
+  else none
+
+/-- the deferred mark of a controlled agent's pair is consumed by the response that completes it -/
+def hsClear (p : Pair) : Pair := { p with nomOnSuccess := false, deferredNom := none }
+
+/-- bookkeeping after the decision (`a` = state in which the decision was taken, `x` = state after it): the
+controlling selector records the answered value, the controlled selector clears the deferred mark -/
+def hsFin (a : Agent) (p : Pair) (pd : Pending) (x : Agent) : Agent :=
+  if a.controlling then
+    match hsAnswered a pd with
+    | some v => { x with answeredNomination := some v }
+    | none => x
+  else if p.nomOnSuccess then x.modPair p.id hsClear else x
+
+theorem select_answered (a : Agent) (w : Option Nat) (id : Nat) :
+    ({ a with answeredNomination := w } : Agent).select id =
+      ({ (a.select id).1 with answeredNomination := w }, (a.select id).2) := by
+  unfold Agent.select Agent.setConnState Agent.modPair
+  simp only []
+  split <;> rfl
+
+/-- the block of `handleSuccess` that follows the validity update (verbatim) -/
+def hsRaw (a : Agent) (p : Pair) (pd : Pending) : Agent × List Out :=
+          if a.controlling then
+            if pd.useCand then
+              match pd.nom with
+              | some v =>
+                let superseded := match a.answeredNomination with | none => false | some w => v ≤ w
+                if superseded then (a, [])
+                else ({ a with answeredNomination := some v }).select p.id
+              | none => if a.selected.isNone then a.select p.id else (a, [])
+            else (a, [])
+          else
+            if p.nomOnSuccess then
+              let (a, o) : Agent × List Out :=
+                match p.deferredNom with
+                | some v =>
+                  let superseded := match a.lastNomination with | none => true | some last => v < last
+                  if superseded then (a, [])
+                  else if a.selected != some p.id then a.select p.id else (a, [])
+                | none =>
+                  match a.selected.bind a.pairById with
+                  | none => a.select p.id
+                  | some sp =>
+                    if sp.id != p.id && a.lastNomination.isSome then (a, [])
+                    else if sp.id != p.id && (!needsPrioCheck a.cfg || a.pairPrio sp ≤ a.pairPrio p) then a.select p.id
+                    else (a, [])
+              (a.modPair p.id fun p => { p with nomOnSuccess := false, deferredNom := none }, o)
+            else (a, [])
+
+theorem hsRaw_eq (a : Agent) (p : Pair) (pd : Pending) :
+    hsRaw a p pd = (hsFin a p pd (hsSel a p pd).1, (hsSel a p pd).2) := by
+  unfold hsRaw hsFin hsSel hsAnswered
+  by_cases hc : a.controlling = true
+  · simp only [if_pos hc]
+    by_cases hu : pd.useCand = true
+    · simp only [if_pos hu]
+      cases hn : pd.nom with
+      | none => simp only []
+      | some v =>
+        simp only []
+        cases ha : a.answeredNomination with
+        | none =>
+          simp only [Bool.false_eq_true, if_false]
+          rw [select_answered]
+        | some w =>
+          simp only []
+          by_cases hle : v ≤ w
+          · simp only [hle, decide_true, if_true]
+          · simp only [hle, decide_false, Bool.false_eq_true, if_false]
+            rw [select_answered]
+    · simp only [if_neg hu]
+  · simp only [if_neg hc]
+    by_cases hn : p.nomOnSuccess = true
+    · simp only [if_pos hn]
+      rfl
+    · simp only [if_neg hn]
+
+theorem handleSuccess_raw (a : Agent) (now : Nat) (m : Msg) (l r : Cand) (src : Nat) :
+    a.handleSuccess now m l r src =
+    match (a.takePending now m.tid).2 with
+    | none => ((a.takePending now m.tid).1, [])
+    | some pd =>
+      if !(pd.net == l.net && pd.dest == src && pd.src == l.addr) then ((a.takePending now m.tid).1, [])
+      else
+        match (a.takePending now m.tid).1.findPair l r with
+        | none => ((a.takePending now m.tid).1, [])
+        | some p =>
+          ((hsRaw ((a.takePending now m.tid).1.modPair p.id (hsMark pd)) p pd).1.modPair p.id
+              fun p => { p with respRecv := p.respRecv + 1 },
+           (hsRaw ((a.takePending now m.tid).1.modPair p.id (hsMark pd)) p pd).2) := by
+  unfold Agent.handleSuccess
+  rcases a.takePending now m.tid with ⟨a1, pend⟩
+  cases pend with
+  | none => rfl
+  | some pd =>
+    simp only []
+    split
+    · rfl
+    · cases a1.findPair l r <;> rfl
 
 theorem handleSuccess_eq (a : Agent) (now : Nat) (m : Msg) (l r : Cand) (src : Nat) :
     a.handleSuccess now m l r src =
@@ -66,18 +183,12 @@ theorem handleSuccess_eq (a : Agent) (now : Nat) (m : Msg) (l r : Cand) (src : N
         match (a.takePending now m.tid).1.findPair l r with
         | none => ((a.takePending now m.tid).1, [])
         | some p =>
-          ((hsSel ((a.takePending now m.tid).1.modPair p.id (hsMark pd)) p pd).1.modPair p.id
+          ((hsFin ((a.takePending now m.tid).1.modPair p.id (hsMark pd)) p pd
+              (hsSel ((a.takePending now m.tid).1.modPair p.id (hsMark pd)) p pd).1).modPair p.id
               fun p => { p with respRecv := p.respRecv + 1 },
            (hsSel ((a.takePending now m.tid).1.modPair p.id (hsMark pd)) p pd).2) := by
-  unfold Agent.handleSuccess
-  rcases a.takePending now m.tid with ⟨a1, pend⟩
-  cases pend with
-  | none => rfl
-  | some pd =>
-    simp only []
-    split
-    · rfl
-    · cases a1.findPair l r <;> rfl
+  rw [handleSuccess_raw]
+  simp only [hsRaw_eq]
 
 theorem takePending_hok {wp ex : Prop} (a : Agent) (now tid : Nat) : HOK wp ex a ((a.takePending now tid).1, []) := by
   unfold Agent.takePending
@@ -140,6 +251,39 @@ theorem hsMark_pres {wp ex : Prop} (a : Agent) (id : Nat) (pd : Pending) : Pres 
     (fun q _ _ h => ⟨fun _ => Or.inl rfl, h.deferred, fun _ => rfl⟩)
     (fun _ q _ _ h => ⟨rfl, h.nominated, h.nom.imp (fun h => by simp [hsMark, h]) fun x => x⟩)
 
+theorem hsFin_cfg (a : Agent) (p : Pair) (pd : Pending) (x : Agent) :
+    (hsFin a p pd x).cfg = x.cfg ∧ (hsFin a p pd x).controlling = x.controlling := by
+  unfold hsFin
+  split
+  · split <;> exact ⟨rfl, rfl⟩
+  · split <;> exact ⟨rfl, rfl⟩
+
+theorem hsFin_selected (a : Agent) (p : Pair) (pd : Pending) (x : Agent) : (hsFin a p pd x).selected = x.selected := by
+  unfold hsFin
+  split
+  · split <;> rfl
+  · split <;> rfl
+
+theorem hsFin_controlled (a : Agent) (p : Pair) (pd : Pending) (x : Agent) (hc : a.controlling = false) :
+    hsFin a p pd x = if p.nomOnSuccess then x.modPair p.id hsClear else x := by
+  unfold hsFin
+  simp [hc]
+
+/-- the bookkeeping after the decision touches nothing the invariant reads (the cleared mark only weakens it) -/
+theorem hsFin_pres {wp ex : Prop} (a : Agent) (p : Pair) (pd : Pending) (x : Agent) : Pres wp ex x (hsFin a p pd x) := by
+  unfold hsFin
+  split
+  · split
+    · exact Pres.of_eq rfl rfl rfl rfl fun _ => rfl
+    · exact Pres.refl _ _ _
+  · split
+    · exact modPair_pres x p.id hsClear (fun _ => rfl)
+        (fun q _ _ => ⟨fun h => h, fun h => h, fun h => h, fun h => h, fun h => h⟩)
+        (fun _ q _ _ => ⟨rfl, rfl, rfl, rfl⟩)
+        (fun q _ _ h => ⟨h.valid, fun hn => by simp [hsClear] at hn, h.respUC⟩)
+        (fun _ q _ _ h => ⟨h.succ, h.nominated, h.nom⟩)
+    · exact Pres.refl _ _ _
+
 theorem handleSuccess_hsel (a : Agent) (now : Nat) (m : Msg) (l r : Cand) (src : Nat) :
     HSel True a (a.handleSuccess now m l r src) := by
   rw [handleSuccess_eq]
@@ -172,7 +316,7 @@ theorem handleSuccess_hsel (a : Agent) (now : Nat) (m : Msg) (l r : Cand) (src :
             · intro _ hu; simp [hsMark, hu]
             · intro _ hn; exact (hi1.pairs p hpm).deferred hn
           have full : Inv3 a → HSel True a
-              ((hsSel (a1.modPair p.id (hsMark pd)) p pd).1.modPair p.id
+              ((hsFin (a1.modPair p.id (hsMark pd)) p pd (hsSel (a1.modPair p.id (hsMark pd)) p pd).1).modPair p.id
                   fun p => { p with respRecv := p.respRecv + 1 },
                (hsSel (a1.modPair p.id (hsMark pd)) p pd).2) := by
             intro hi
@@ -181,11 +325,15 @@ theorem handleSuccess_hsel (a : Agent) (now : Nat) (m : Msg) (l r : Cand) (src :
             rw [hk] at k
             have := HSel.after_hok h1 NoReq.nil k
             simp only [List.nil_append] at this
-            exact this.andThen (modPair_core _ _ (fun p => { p with respRecv := p.respRecv + 1 })
-              fun p => ⟨rfl, rfl, rfl, rfl, rfl, rfl, rfl, rfl, rfl, rfl, rfl, rfl⟩) rfl rfl
+            exact (this.andThen (hsFin_pres (a1.modPair p.id (hsMark pd)) p pd a3)
+                (hsFin_cfg _ p pd a3).1 (hsFin_cfg _ p pd a3).2).andThen
+              (modPair_core _ _ (fun p => { p with respRecv := p.respRecv + 1 })
+                fun p => ⟨rfl, rfl, rfl, rfl, rfl, rfl, rfl, rfl, rfl, rfl, rfl, rfl⟩) rfl rfl
         · exact fun hi => (full hi).inv hi
         · exact fun hi => (full hi).rel hi
-        · rcases hsSel_cases (a1.modPair p.id (hsMark pd)) p pd with h | ⟨h, _⟩
+        · show (hsFin _ p pd _).cfg = a.cfg
+          rw [(hsFin_cfg _ p pd _).1]
+          rcases hsSel_cases (a1.modPair p.id (hsMark pd)) p pd with h | ⟨h, _⟩
           · rw [h]; exact h1.cfg
           · rw [h]; exact ((select_cc _ _).1).trans h1.cfg
         · rcases hsSel_cases (a1.modPair p.id (hsMark pd)) p pd with h | ⟨h, _⟩
